@@ -794,6 +794,12 @@ func c03XPathExprs() []string {
 		"a[sum(../b) = 1]", "a[number(../*) = 1]", "a[concat(., ../*) = '']", "a[substring-before(., ../*) = '']", "a[reverse(..)]", "a[lang('en')]", "a[name(..) = 'o']", "a[local-name(../*) = 'a']", "a[count(.) = '1']", "a[position() = last()]", "a[last() = 'x']", "a[position() > 'x']",
 		// a comparison / boolean / number where a node-set is required inside a node-set expression
 		"a | (1=1)", "a | (b='x')", "a | (1=2)", "(a='1')/b", "(1=1)/a", "a | true()", "a | 1", "a | 'x'", "a | count(b)", "(a | (1=1))[1]", "a[b] | (b='x')", "//a | //b[.=(1=1)]", "a | (b and a)", "a | not(b)",
+		// ... and the same inside a predicate, also as the argument of a function (which the engine keeps where its query tree doesn't show it)
+		".[(a='1') | b]", "a[(.='1') | ../b]", "a[reverse(.='1')]", "a[(.='1')[2]]", "a[(.!=../b)[2]]", ".[count((a!=b)[1]) > 0]", ".[contains((a='1') | b, '1')]", ".[string-length((a='1')[1]) > 0]",
+		".[concat((a='1') | b, 'x') != '']", ".[name((a='1') | b) = 'a']", ".[((a='1') or b)[1]]", ".[sum((a='1') | b) > 0]", ".[(a='1')/b]", ".[not((a='1') | b)]", ".[boolean((a='1')[1])]", ".[starts-with((a='1')/b, 'x')]",
+		"a[. = ((../a='1') | ../b)]", ".[((a='1'))[1]]", ".[normalize-space((a='1') | b) = '1']", ".[substring((a='1') | b, 1) = '1']", ".[translate((a='1')[1], '1', '2') = '2']", "//*[(.='1') | .]", ".[number((a='1') | b) = 1]",
+		// (groups that are fine: they are operands of operators, not node-sets)
+		"a[(.='1') and ../b]", ".[(a='1' or b) and a]", "a[not(.='1')]", ".[(1+2)*3 = 9]", "(a[.='1'])[1]", "a[. = (../a | ../b)]", ".[count(a[.='1']) > 0]",
 		"a[true()]", "a[false()]", "a[b and true()]", "a[not(b)]", "a[position()]", "a[last()][1]", "a[1][1]", "a[b[c]]", "a[.=..]", "//*[.//*]", "a[count(b)]", "a[string()]", "a[1 div 0]", "a[0]", "a[-1]", "a['x']", "a[''])",
 		"", " ", "[", "]", "a[", "a]", "//", "///", "a//", "@", "a/@", "a::b", "child::", "a b", "a,b", "a=", "=a", "and", "or", "()", "(", "a |", "| a", "$a", "a[$b]", "1 2", "a/(b)", "a/(b and c)", "f()", "a:b", "a:*", "*:a", "@a:b",
 		"a[1", "a[1]]", "'unterminated", "a[.='x]", "//*[text()='1' and @k]", ".[a!='0' and b!='z']", "./.", "./..", "../..", "/..", "/.", "a/./b", ".//.",
